@@ -87,6 +87,7 @@ def run(ctx):
     sc.correspondence(ctx, recs, "cmp_rewards", "c02")
     sc.padding_check(ctx, recs, ("rewards",), 40 if ctx.quick else 400, "c02")
     sc.loglevel_check(ctx, recs, ("rewards",), 25 if ctx.quick else 250, "c02")
+    sc.resolve_check(ctx, recs, ("rewards",), 30 if ctx.quick else 300, "c02")
     check(ctx, recs)
     known_k1(ctx)
 
